@@ -119,6 +119,8 @@ CONSTANT SubmeshStep,
                            \* "size" : (section size - 16) / 4, the pre-fix rule (named deviation, must be refuted)
          RelocAdvanceAlways, \* FALSE as coded: an array whose original offset is already mapped (shared key-frame data) keeps
                            \* its offset and does NOT advance the running offset; TRUE = named deviation (must be refuted)
+         SaveTruncates,    \* TRUE as coded: save(path) creates/truncates the destination (File::create); FALSE = named deviation
+                           \* (opened for writing without truncation: the tail of a longer existing file survives)
          ViewBatchBytes    \* bytes per batch the WRITER of embedded views divides by: 24 as fixed (1115b56); 96 = pre-fix deviation
 CursorStepRaw(fmt, sec, vn) ==
   IF fmt = "m2" /\ sec = "animations" THEN (IF vn <= 256 THEN 32 ELSE 52) ELSE
@@ -394,6 +396,12 @@ ExpectedProfiles(vfrom, vto, nviews, srcprofiles) ==
   ELSE IF VerNum(vfrom) <= 263 THEN (IF nviews > 0 THEN nviews ELSE 1) ELSE srcprofiles
 ExpectedViewsAfterParse(vfrom, vto, nviews) ==
   IF VerNum(vto) > 263 THEN 0 ELSE IF VerNum(vfrom) <= 263 THEN nviews ELSE 0
+
+\* save(path) next to write(&mut W): whatever the destination held before {absent, shorter file, longer file}, afterwards the
+\* file IS the bytes write produces.  Lengths suffice to state it: a non-truncating open leaves Max(len, prelen) bytes.
+MaxOf(a, b) == IF a >= b THEN a ELSE b
+SaveToPath(len, prelen) == IF SaveTruncates THEN len ELSE MaxOf(len, prelen)          \* prelen = -1: absent
+SaveYieldsBytes == \A len \in {0, 1, 48, 324, 1000} : \A prelen \in {-1, len \div 2, 2 * len + 17} : SaveToPath(len, prelen) = len
 
 \* the documented sizes agree with the field sums and with the writer's constants for every version
 SizesAgree ==
